@@ -70,3 +70,39 @@ def Good (needClip : Bool) (sk : Skeleton) : Bool :=
 def count (e : SEv) (l : List SEv) : Nat := (l.filter (· == e)).length
 
 end Opy
+
+namespace Opy
+
+/-! ### evaluation sites
+
+For every function of the library that calls the objective, the translator lists, in source
+order, what happens to the evaluated object's position before the call. -/
+
+inductive SiteOp where
+  /-- the position is (re)assigned or modified in place: an oracle value -/
+  | assign
+  /-- `X.check_limits()` -/
+  | clip
+  /-- `function.pointer(X.position)` -/
+  | eval
+deriving DecidableEq, Repr
+
+structure Site where
+  func : String
+  obj : String
+  ops : List SiteOp
+  /-- the function is an evaluation sweep over `space.agents` (relies on the space-wide clip) -/
+  isSweep : Bool
+deriving Repr
+
+/-- every evaluation is reached with the position freshly clipped: scanning left to right,
+    `ok` = "the position is known to be clipped" -/
+def opsOk : Bool → List SiteOp → Bool
+  | _, [] => true
+  | _, .assign :: rest => opsOk false rest
+  | _, .clip :: rest => opsOk true rest
+  | ok, .eval :: rest => ok && opsOk ok rest
+
+def Site.ok (s : Site) : Bool := opsOk s.isSweep s.ops
+
+end Opy
